@@ -406,7 +406,7 @@ fn partial_tokens_to_tokens<NumericTypes: EvalexprNumericTypes>(
                 cutoff = 1;
                 if let Ok(number) = parse_dec_or_hex::<NumericTypes>(&literal) {
                     Some(Token::Int(number))
-                } else if let Ok(number) = literal.parse::<NumericTypes::Float>() {
+                } else if let Some(number) = parse_float::<NumericTypes>(&literal) {
                     Some(Token::Float(number))
                 } else if let Ok(boolean) = literal.parse::<bool>() {
                     Some(Token::Boolean(boolean))
@@ -419,9 +419,10 @@ fn partial_tokens_to_tokens<NumericTypes: EvalexprNumericTypes>(
                         (Some(second), Some(third))
                             if second == PartialToken::Minus || second == PartialToken::Plus =>
                         {
-                            if let Ok(number) = format!("{}{}{}", literal, second, third)
-                                .parse::<NumericTypes::Float>()
-                            {
+                            if let Some(number) = parse_float::<NumericTypes>(&format!(
+                                "{}{}{}",
+                                literal, second, third
+                            )) {
                                 cutoff = 3;
                                 Some(Token::Float(number))
                             } else {
@@ -495,6 +496,15 @@ pub(crate) fn tokenize<NumericTypes: EvalexprNumericTypes>(
     string: &str,
 ) -> EvalexprResult<Vec<Token<NumericTypes>>, NumericTypes> {
     partial_tokens_to_tokens(&str_to_partial_tokens(string)?)
+}
+
+/// Float literals start with a digit or a dot, so that words like `inf` or `nan` stay identifiers.
+fn parse_float<NumericTypes: EvalexprNumericTypes>(literal: &str) -> Option<NumericTypes::Float> {
+    if literal.starts_with(|c: char| c.is_ascii_digit() || c == '.') {
+        literal.parse::<NumericTypes::Float>().ok()
+    } else {
+        None
+    }
 }
 
 fn parse_dec_or_hex<NumericTypes: EvalexprNumericTypes>(
